@@ -42,6 +42,12 @@ CHECKS["C18"] = dict(
     note="Trusted: TLC, the extractor (attribute reads), pins/pack_layout.json.gz generated from commit 236b7b1. Known findings: three ill-formed entries (D12), recorded by item key.",
     design="§4 C18")
 
+CHECKS["C04"] = dict(
+    technique="Wire.tla (byte layout of every message kind, framing, claim matrix, reply addressing) with laws model-checked by TLC over delimiter-made payloads; records from the real constructors / all 15 handler classes / peer decoders judged by TLC (C04_Judge)",
+    text="Enc, Frame, ParseFrame, ParseHello, Claims and Owner are specified in TLA+; Wire_MC checks frame and hello round trips for payloads built from the tags themselves, the claim matrix and prefix-freeness. Every real constructor is called with boundary and seeded field values (all sequence/position boundaries, 0..255-byte binary segments incl. tag text and newlines, signed reminder days, every shipped platform name x versions, names with separators and latin-1); bytes, can_handle of every standard class on datagram and content, fields decoded by a fresh and by a long-lived peer handler, and a reply built from the received parms are judged by TLC.",
+    note="Trusted: TLC, attribute extraction from handler objects. Identifiers contain no tag text. Known finding D13 (SETWC/WCREQ unclaimed) is judged against the stated property and matched by verb.",
+    design="§4 C04")
+
 NOT_YET = {}
 
 
